@@ -431,7 +431,7 @@ def fake_psutil(proc):
         def __init__(self, pid=None):
             self.pid = proc.pid if pid is None else pid
             p = RT.kernel.procs.get(self.pid)
-            if p is None or not p.alive:
+            if p is None or p.reaped:        # a zombie still exists for psutil
                 raise NoSuchProcess(pid)
 
         def memory_info(self):
